@@ -140,44 +140,46 @@ Definition cores (I : list item1) : list item := fold_left (fun l i => add_item 
 
 Definition same_core (I J : list item1) : bool := itemset_eqb (cores I) (cores J).
 
-(** index of the class (first LR(1) state with that core) *)
+(** index of the class: the first representative with that core *)
 Fixpoint class_index (J : list item1) (reps : list (list item1)) (k : nat) : option nat :=
   match reps with
   | [] => None
   | I0 :: r => if same_core I0 J then Some k else class_index J r (S k)
   end.
 
-(** merged states in order of first occurrence: each is the union of the items of its class *)
-Fixpoint merge_add (J : list item1) (ms : list (list item1)) : list (list item1) :=
-  match ms with
-  | [] => [J]
-  | M :: r => if same_core M J then fold_left (fun m i => add_item1 i m) J M :: r else M :: merge_add J r
-  end.
+(** representatives: the first LR(1) state of every core, in order of occurrence *)
+Definition reps_of (C : list (list item1)) : list (list item1) :=
+  fold_left (fun rs J => match class_index J rs 0 with Some _ => rs | None => rs ++ [J] end) C [].
 
-Definition merged (C : list (list item1)) : list (list item1) := fold_left (fun ms J => merge_add J ms) C [].
+(** the merged state of a representative: the union of the LR(1) states with its core *)
+Definition merge_class (C : list (list item1)) (R : list item1) : list item1 :=
+  fold_left (fun m J => if same_core R J then fold_left (fun m' i => add_item1 i m') J m else m) C [].
 
-Definition class_of (ms : list (list item1)) (J : list item1) : Z :=
+Definition class_of (reps : list (list item1)) (J : list item1) : Z :=
   match J with
   | [] => (-1)%Z
-  | _ => match class_index J ms 0 with Some k => Z.of_nat k | None => (-1)%Z end
+  | _ => match class_index J reps 0 with Some k => Z.of_nat k | None => (-1)%Z end
   end.
 
+(** GOTO of a merged state is the class of GOTO of its representative (all members have the
+    same core, hence GOTOs with the same core) *)
 Definition lalr_raw (fuel : nat) (G : gram) : option raw_table :=
   match canonical1 fuel G with
   | None => None
   | Some C =>
       let c := ctx_of G in
-      let ms := merged C in
-      let idx := combine (map Z.of_nat (seq 0 (length ms))) ms in
-      let acts := fold_left (fun cells sI =>
-                    fold_left (item1_actions G (fun X => class_of ms (goto1 c (snd sI) X)) (fst sI)) (snd sI) cells) idx [] in
-      let gotos := flat_map (fun sI =>
+      let reps := reps_of C in
+      let idx := combine (map Z.of_nat (seq 0 (length reps))) reps in
+      let acts := fold_left (fun cells sR =>
+                    fold_left (item1_actions G (fun X => class_of reps (goto1 c (snd sR) X)) (fst sR))
+                              (merge_class C (snd sR)) cells) idx [] in
+      let gotos := flat_map (fun sR =>
                     flat_map (fun A =>
-                      match class_of ms (goto1 c (snd sI) (Nt A)) with
+                      match class_of reps (goto1 c (snd sR) (Nt A)) with
                       | Zneg _ => []
-                      | t => [(fst sI, A, t)]
+                      | t => [(fst sR, A, t)]
                       end) (nonterms G)) idx in
-      Some (mkRaw (length ms) acts gotos)
+      Some (mkRaw (length reps) acts gotos)
   end.
 
 Definition finish (r : option raw_table) (ls : levels) : build_result :=
